@@ -1208,3 +1208,279 @@ Proof.
   exists s. eexists. split; [eapply run_state_reach; eauto|].
   vm_compute in E. injection E as <-. vm_compute. repeat split.
 Qed.
+
+(** * C09.3 a push operation returns at most once *)
+(* the returns that end a Notify / Callback after its request was attempted *)
+Definition is_final (r : apires) : bool :=
+  match r with ACbRes _ | ACbErr _ _ | ACbCtx _ | ASendFailed => true | _ => false end.
+Definition ret_of (n : nat) (o : obs) : bool :=
+  match o with ORet n' r => (n' =? n) && is_final r | _ => false end.
+Definition is_push_n (n : nat) (o : op) : bool := match o with OpPush n' _ _ _ => n' =? n | _ => false end.
+Definition live (c : cb) : bool := match cb_slot c with None => negb (cb_ret c) | Some _ => false end.
+Definition live_n (n : nat) (c : cb) : bool := (cb_op c =? n) && live c.
+
+(* how many final returns operation number [n] can still produce *)
+Definition pot (n : nat) (s : state) : nat :=
+  (if existsb (is_push_n n) (ops s) then 1 else 0) + countb (live_n n) (cbs s).
+
+(* a completed callback (slot written, or already returned) is no longer registered *)
+Lemma done_not_registered s i c :
+  inv_push s -> nth_error (cbs s) i = Some c -> live c = false -> ~ In (cb_id c, i) (calls s).
+Proof.
+  intros H N L I. destruct (ip_reg _ H _ _ I) as (c' & N' & _ & (O1 & O2 & _)).
+  assert (c' = c) by congruence. subst c'. unfold live in L. rewrite O1, O2 in L. discriminate.
+Qed.
+
+Lemma existsb_del_op n n' l :
+  existsb (is_push_n n) (del_op n' l) = if n' =? n then false else existsb (is_push_n n) l.
+Proof.
+  unfold del_op. induction l as [|o l IH]; cbn; [destruct (n' =? n); auto|].
+  destruct (Nat.eqb_spec (op_num o) n') as [E|E]; cbn.
+  - rewrite IH. destruct (Nat.eqb_spec n' n) as [->|Ne]; auto.
+    destruct o; cbn in *; auto. destruct (Nat.eqb_spec n0 n); [lia|auto].
+  - rewrite IH. destruct (Nat.eqb_spec n' n) as [->|Ne]; auto.
+    destruct o; cbn in *; auto. destruct (Nat.eqb_spec n0 n); [lia|auto].
+Qed.
+
+Lemma existsb_del_op_le n n' l : (if existsb (is_push_n n) (del_op n' l) then 1 else 0) <= (if existsb (is_push_n n) l then 1 else 0).
+Proof. rewrite existsb_del_op. destruct (n' =? n), (existsb (is_push_n n) l); lia. Qed.
+
+Lemma countb_map_same {A} (p : A -> bool) (f : A -> A) l : (forall x, p (f x) = p x) -> countb p (map f l) = countb p l.
+Proof. intros H. induction l as [|x l IH]; cbn; auto. rewrite H, IH; auto. Qed.
+
+Lemma stop_cb_live n cl c : live_n n (stop_cb cl c) = live_n n c.
+Proof. unfold stop_cb. destruct (assoc (cb_id c) cl); reflexivity. Qed.
+
+Lemma no_ret_count n os : Forall (fun o => ~ is_ret o) os -> countb (ret_of n) os = 0.
+Proof. induction 1 as [|o l H _ IH]; cbn; auto. destruct o; cbn in *; auto. tauto. Qed.
+
+Lemma res_of_val_final v : is_final (res_of_val v) = true.
+Proof.
+  destruct v as [raw|code msg]; cbn; auto. unfold ctx_res.
+  destruct (code =? Cancelled)%Z; auto. destruct (code =? DeadlineExceeded)%Z; auto.
+Qed.
+
+(* completing a registered callback moves one unit of potential into one return *)
+Lemma complete_cb_pot n k i v s :
+  inv_push s -> In (k, i) (calls s) ->
+  countb (ret_of n) (snd (complete_cb i v s)) + pot n (fst (complete_cb i v s)) = pot n s.
+Proof.
+  intros H I. destruct (complete_cb_reg _ _ v _ H I) as (c & N & Eid & Rt & Sl & ->). cbn [fst snd].
+  unfold pot. cbn [ops cbs countb]. 
+  change (ops (s <| cbs ::= upd_nth i (fun c => wake_watch (c <| cb_slot := Some v |>)) |> <| calls ::= assoc_del k |>)) with (ops s).
+  change (cbs (s <| cbs ::= upd_nth i (fun c => wake_watch (c <| cb_slot := Some v |>)) |> <| calls ::= assoc_del k |>))
+    with (upd_nth i (fun c => wake_watch (c <| cb_slot := Some v |>)) (cbs s)).
+  pose proof (countb_upd_nth (live_n n) i (fun c => wake_watch (c <| cb_slot := Some v |>)) (cbs s) c N) as CU.
+  unfold ret_of. rewrite res_of_val_final, andb_true_r.
+  assert (L1 : live_n n (wake_watch (c <| cb_slot := Some v |>)) = false).
+  { unfold live_n, live. cbn. apply andb_false_r. }
+  assert (L2 : live_n n c = (cb_op c =? n)).
+  { unfold live_n, live. rewrite Sl, Rt. cbn. apply andb_true_r. }
+  cbv beta in CU. rewrite L1, L2 in CU. destruct (cb_op c =? n); lia.
+Qed.
+
+Lemma filter_batch_pot n : forall ms s keep acc s' keep' acc',
+  inv_push s -> filter_batch ms s keep acc = (s', keep', acc') ->
+  countb (ret_of n) acc' + pot n s' = countb (ret_of n) acc + pot n s.
+Proof.
+  induction ms as [|m r IH]; intros s keep acc s' keep' acc' H E; cbn [filter_batch] in E.
+  - injection E as <- <- <-. auto.
+  - destruct (is_req_or_notif m); [eauto|].
+    destruct (assoc (fix_id (j_id m)) (calls s)) as [i|] eqn:A.
+    2:{ destruct (c_push s && is_nil (j_method m) && has_reply_fields m); eauto. }
+    pose proof (complete_cb_pot n _ _ (member_val m) _ H (assoc_in _ _ _ A)) as P.
+    pose proof (complete_cb_ip i (member_val m) s H) as H1.
+    fold (member_val m) in E. destruct (complete_cb i (member_val m) s) as [s1 os1]. cbn [fst snd] in *.
+    rewrite (IH _ _ _ _ _ _ H1 E), countb_app. lia.
+Qed.
+
+Lemma stop_locked_pot n sc s s' os : stop_locked sc s = (s', os) -> pot n s' = pot n s /\ countb (ret_of n) os = 0.
+Proof.
+  intros H. apply stop_locked_spec in H as [(_ & -> & ->)|(_ & -> & _ & _ & _ & _ & _ & _ & Eo & _ & _ & Ec)]; auto.
+  unfold pot. rewrite Eo, Ec, countb_map_same; auto. intros; apply stop_cb_live.
+Qed.
+
+Definition push_label_n (n : nat) (l : label) : nat :=
+  match l with LCallPush n' _ _ _ => if n' =? n then 1 else 0 | _ => 0 end.
+
+Lemma pot_frame n s s' : ops s' = ops s -> cbs s' = cbs s -> pot n s' = pot n s.
+Proof. unfold pot. intros -> ->. reflexivity. Qed.
+
+Lemma raw_pot n s l s' os :
+  inv_push s -> step_raw s l = Some (s', os) ->
+  countb (ret_of n) os + pot n s' <= pot n s + push_label_n n l.
+Proof.
+  intros IH H.
+  destruct (neutral l) eqn:Neu.
+  { apply step_raw_neutral in H as [P F]; auto. apply pv_fields in P.
+    rewrite (no_ret_count _ _ F), (pot_frame n s s'); [lia|tauto|tauto]. }
+  destruct l; try discriminate Neu; cbn [step_raw push_label_n] in *.
+  - destruct (negb (running s) && (wg s =? 0)); [|discriminate]. injection H as <- <-. unfold pot; cbn; lia.
+  - injection H as <- <-. unfold pot; cbn; lia.
+  - injection H as <- <-. unfold pot. cbn. rewrite existsb_app. cbn. rewrite orb_false_r. lia.
+  - injection H as <- <-. unfold pot. cbn. rewrite existsb_app. cbn. rewrite orb_false_r. lia.
+  - destruct (c_push s); injection H as <- <-.
+    + unfold pot. cbn. rewrite existsb_app. cbn. rewrite orb_false_r.
+      destruct (existsb (is_push_n n) (ops s)), (n0 =? n); cbn; lia.
+    + cbn. rewrite andb_false_r. cbn. lia.
+  - destruct (find_idx _ 0 (cbs s)) as [i|]; injection H as <- <-; cbn; [|unfold pot; cbn; lia].
+    unfold pot. cbn. rewrite countb_upd_nth_same; [lia|].
+    intros x _. destruct (cb_cancelled x); reflexivity.
+  - (* LRelRead *)
+    destruct (rd s) as [| |f|]; try discriminate. injection H as H. unfold read_cs in H.
+    destruct f as [i|i|sc].
+    1,2: destruct (negb (running s)); [injection H as <- <-; unfold pot; cbn; lia|];
+         destruct i as [|b ms]; [cbn in H; injection H as <- <-; unfold pot; cbn; lia|];
+         destruct ms as [|m0 ms0]; [cbn in H; injection H as <- <-; unfold pot; cbn; lia|];
+         destruct (filter_batch (m0 :: ms0) s [] []) as [[s1 keep] os1] eqn:FB;
+         pose proof (filter_batch_pot n _ _ _ _ _ _ _ IH FB) as P; cbn [countb] in P;
+         destruct keep; [injection H as <- <-; rewrite (pot_frame n s1); auto; lia|];
+         match type of H with (if ?b then _ else _) = _ => destruct b end; injection H as <- <-;
+         rewrite ?countb_app; cbn [countb ret_of]; rewrite (pot_frame n s1); auto; lia.
+    destruct (stop_locked sc s) as [s2 os2] eqn:SL. injection H as <- <-.
+    destruct (stop_locked_pot n _ _ _ _ SL) as [P Z]. rewrite Z, (pot_frame n s2); auto; lia.
+  - (* LRelStop *)
+    destruct (find_op n0 (ops s)) as [[| |]|]; try discriminate.
+    destruct (stop_locked SCStop _) as [s2 os2] eqn:SL. injection H as <- <-.
+    destruct (stop_locked_pot n _ _ _ _ SL) as [P Z]. rewrite countb_app, Z, P. cbn. rewrite andb_false_r.
+    unfold pot. cbn [ops cbs]. 
+    change (ops (s <| ops ::= del_op n0 |>)) with (del_op n0 (ops s)).
+    change (cbs (s <| ops ::= del_op n0 |>)) with (cbs s).
+    pose proof (existsb_del_op_le n n0 (ops s)). lia.
+  - (* LRelCancel *)
+    destruct (find_op n0 (ops s)) as [[| |]|]; try discriminate. cbn in H.
+    assert (E : ops s' = del_op n0 (ops s) /\ cbs s' = cbs s /\ os = [ORet n0 AOk]).
+    { destruct (assoc id (used s)); injection H as <- <-; [|auto].
+      pose proof (cancel_task_pv n2 (s <| ops ::= del_op n0 |>)) as P. apply pv_fields in P.
+      destruct P as (_ & _ & _ & _ & _ & _ & -> & -> & _). auto. }
+    destruct E as (E1 & E2 & ->). unfold pot. rewrite E1, E2. cbn. rewrite andb_false_r.
+    pose proof (existsb_del_op_le n n0 (ops s)). cbn. lia.
+  - (* LRelPush *)
+    destruct (find_op n0 (ops s)) as [[| |n' w m p]|] eqn:F; try discriminate.
+    apply find_op_num in F as [F1 F2]. cbn in F1. subst n'.
+    assert (X : existsb (is_push_n n0) (ops s) = true).
+    { apply existsb_exists. eexists; split; [exact F2|]. cbn. apply Nat.eqb_refl. }
+    cbn in H.
+    assert (D : (if existsb (is_push_n n) (del_op n0 (ops s)) then 1 else 0) + (if n0 =? n then 1 else 0)
+                <= (if existsb (is_push_n n) (ops s) then 1 else 0)).
+    { rewrite existsb_del_op. destruct (Nat.eqb_spec n0 n) as [->|Ne]; [rewrite X; lia|lia]. }
+    destruct (running s); cbn in H.
+    2:{ injection H as <- <-. unfold pot. cbn. rewrite andb_false_r. cbn. lia. }
+    destruct w.
+    + destruct (send_fail s); injection H as <- <-; unfold pot; cbn; rewrite countb_app; cbn.
+      * rewrite andb_true_r. unfold live_n at 2. cbn. rewrite andb_false_r. destruct (n0 =? n); lia.
+      * destruct (find _ (ended s)) as [[? ?]|]; unfold live_n at 2; cbn; rewrite andb_true_r; destruct (n0 =? n); lia.
+    + injection H as <- <-. unfold pot. cbn. destruct (send_fail s); cbn; rewrite ?andb_true_r, ?andb_false_r; destruct (n0 =? n); cbn; lia.
+  - (* LRelCbWatch *)
+    rename c into i.
+    destruct (watch_own _ _ _ _ IH H) as (cb0 & N & W & Cases).
+    cbn [step_raw] in H. rewrite N, W in H.
+    replace (calls (s <| cbs ::= upd_nth i (fun c => c <| cb_watch := WDone |>) |>)) with (calls s) in H by reflexivity.
+    assert (P1 : pot n (s <| cbs ::= upd_nth i (fun c => c <| cb_watch := WDone |>) |>) = pot n s).
+    { unfold pot. cbn. rewrite countb_upd_nth_same; auto. }
+    destruct Cases as [(NI & -> & _)|(I & -> & _)].
+    + assert (E : s' = s <| cbs ::= upd_nth i (fun c => c <| cb_watch := WDone |>) |>).
+      { destruct (assoc (cb_id cb0) (calls s)) as [j|] eqn:A; [|injection H as <-; auto].
+        destruct (cb_slot cb0) eqn:SL; [injection H as <-; auto|].
+        destruct (Nat.eqb_spec j i) as [->|Ne]; [|injection H as <-; auto].
+        exfalso. apply NI. apply assoc_in; auto. }
+      rewrite E, P1. cbn. lia.
+    + (* completing: use the potential of the original state directly *)
+      pose proof (NoDup_assoc _ _ _ (ip_nodup _ IH) I) as A. rewrite A in H.
+      destruct (ip_reg _ IH _ _ I) as (c' & N' & _ & (O1 & O2 & _)).
+      assert (c' = cb0) by congruence. subst c'. rewrite O1, Nat.eqb_refl in H.
+      assert (E : exists v, complete_cb i v (s <| cbs ::= upd_nth i (fun c => c <| cb_watch := WDone |>) |>)
+                            = (s', [ORet (cb_op cb0) (ACbCtx (ctx_why cb0))])).
+      { destruct (cb_ctx cb0) as [[|]|]; injection H as H; eauto. }
+      destruct E as (v & E). unfold complete_cb in E.
+      match type of E with context [nth_error ?l i] =>
+        change l with (upd_nth i (fun c => c <| cb_watch := WDone |>) (cbs s)) in E end.
+      rewrite (nth_error_upd_nth_eq _ _ _ _ N) in E. injection E as <- _.
+      unfold pot. cbn [ops cbs countb ret_of is_final].
+      change (ops (s <| cbs ::= upd_nth i (fun c => c <| cb_watch := WDone |>) |>
+                     <| cbs ::= upd_nth i (fun c => wake_watch (c <| cb_slot := Some v |>)) |>
+                     <| calls ::= assoc_del (cb_id cb0) |>)) with (ops s).
+      change (cbs (s <| cbs ::= upd_nth i (fun c => c <| cb_watch := WDone |>) |>
+                     <| cbs ::= upd_nth i (fun c => wake_watch (c <| cb_slot := Some v |>)) |>
+                     <| calls ::= assoc_del (cb_id cb0) |>))
+        with (upd_nth i (fun c => wake_watch (c <| cb_slot := Some v |>)) (upd_nth i (fun c => c <| cb_watch := WDone |>) (cbs s))).
+      rewrite upd_nth_upd_nth.
+      pose proof (countb_upd_nth (live_n n) i (fun x => wake_watch ((x <| cb_watch := WDone |>) <| cb_slot := Some v |>)) (cbs s) cb0 N) as CU.
+      assert (L1 : live_n n (wake_watch ((cb0 <| cb_watch := WDone |>) <| cb_slot := Some v |>)) = false).
+      { unfold live_n, live. cbn. apply andb_false_r. }
+      assert (L2 : live_n n cb0 = (cb_op cb0 =? n)).
+      { unfold live_n, live. rewrite O1, O2. cbn. apply andb_true_r. }
+      cbv beta in CU. rewrite L1, L2 in CU. rewrite andb_true_r. destruct (cb_op cb0 =? n); lia.
+Qed.
+
+Lemma settle_obs_no_final n extra : Forall settle_obs extra -> countb (ret_of n) extra = 0.
+Proof. induction 1 as [|o l H _ IH]; cbn; auto. destruct o; cbn in *; auto; tauto. Qed.
+
+Lemma step_pot n s l s' os :
+  inv_push s -> step s l = Some (s', os) -> countb (ret_of n) os + pot n s' <= pot n s + push_label_n n l.
+Proof.
+  intros IH H. apply step_obs_raw in H as (_ & s1 & os1 & ex & Raw & -> & Fx & P).
+  pose proof (raw_pot n _ _ _ _ IH Raw) as B. apply pv_fields in P.
+  rewrite countb_app, (settle_obs_no_final _ _ Fx), (pot_frame n s1 s'); [lia|tauto|tauto].
+Qed.
+
+Fixpoint count_final (n : nat) (oss : list (list obs)) : nat :=
+  match oss with [] => 0 | os :: r => countb (ret_of n) os + count_final n r end.
+Fixpoint count_push (n : nat) (tr : list label) : nat :=
+  match tr with [] => 0 | l :: r => push_label_n n l + count_push n r end.
+Definition push_nums (tr : list label) : list nat :=
+  flat_map (fun l => match l with LCallPush n _ _ _ => [n] | _ => [] end) tr.
+
+Lemma run_pot c n : forall tr s s' oss, reach c s -> run s tr = Some (s', oss) ->
+  count_final n oss + pot n s' <= pot n s + count_push n tr.
+Proof.
+  induction tr as [|l r IH]; cbn; intros s s' oss R H.
+  - injection H as <- <-. cbn. lia.
+  - destruct (step s l) as [[s1 os]|] eqn:E; [|discriminate].
+    destruct (run s1 r) as [[s2 oss2]|] eqn:E2; [|discriminate].
+    injection H as <- <-. cbn.
+    pose proof (step_pot n _ _ _ _ (inv_push_reach _ _ R) E) as B1.
+    pose proof (IH _ _ _ (reach_step _ _ _ _ _ R E) E2) as B2. lia.
+Qed.
+
+Lemma count_push_notin n tr : ~ In n (push_nums tr) -> count_push n tr = 0.
+Proof.
+  induction tr as [|l r IH]; cbn; auto. intros N. rewrite in_app_iff in N.
+  rewrite IH by tauto. destruct l; cbn; auto.
+  destruct (Nat.eqb_spec n0 n) as [->|Ne]; auto. exfalso. apply N. left. cbn. auto.
+Qed.
+
+Lemma count_push_nodup n tr : NoDup (push_nums tr) -> count_push n tr <= 1.
+Proof.
+  induction tr as [|l r IH]; cbn; auto. intros N.
+  destruct l; cbn in *; auto.
+  inversion N as [|? ? Hn Hd]; subst.
+  destruct (Nat.eqb_spec n0 n) as [->|Ne]; [rewrite count_push_notin; auto|auto].
+Qed.
+
+(* C09.3: on every trace, the final returns (result, error, context error, send failure) of
+   operation number [n] are at most as many as the environment's push calls numbered [n];
+   if the environment never reuses an operation number: at most one *)
+Lemma returns_at_most_calls c tr s oss n :
+  run (init_of c) tr = Some (s, oss) -> count_final n oss <= count_push n tr.
+Proof.
+  intros H. pose proof (run_pot c n tr _ _ _ (reach_init c) H) as B.
+  assert (Z : pot n (init_of c) = 0) by reflexivity. lia.
+Qed.
+
+Lemma returns_once c tr s oss n :
+  run (init_of c) tr = Some (s, oss) -> NoDup (push_nums tr) -> count_final n oss <= 1.
+Proof.
+  intros H N. pose proof (returns_at_most_calls _ _ _ _ n H). pose proof (count_push_nodup n tr N). lia.
+Qed.
+
+(* the callback is answered, then the same reply arrives again: one return *)
+Example returns_once_nonvacuous :
+  exists s oss,
+    run (init_of cfg_push) (tr_callback ++ [LRelPush 5; LFeed (FMsg (InMsgs false [reply_msg [49]%N [50]%N])); LRelRead;
+                                            LFeed (FMsg (InMsgs false [reply_msg [49]%N [51]%N])); LRelRead;
+                                            LCbCtxEnd 5 WCancel; LRelCbWatch 0]) = Some (s, oss) /\
+    NoDup (push_nums (tr_callback ++ [LRelPush 5])) /\ count_final 5 oss = 1.
+Proof.
+  eexists. eexists. split; [vm_compute; reflexivity|]. split; [cbn; repeat constructor; auto|reflexivity].
+Qed.
